@@ -38,3 +38,113 @@ Proof.
   destruct (Z.eq_dec (Z.rem a b) 0) as [E0|N0]; [left; exact E0|right].
   apply Z.rem_sign_nz; assumption.
 Qed.
+
+(* ------------------------------------------------------------------ range semantics *)
+From Coq Require Import String.
+
+(* the values a for-loop visits, by the same fuel as the loop itself *)
+Definition for_continues (i hi : Z) (incl : bool) (step : Z) : bool :=
+  if 0 <? step then (if incl then i <=? hi else i <? hi)
+  else (if incl then hi <=? i else hi <? i).
+
+Fixpoint range_list (fuel : nat) (i hi : Z) (incl : bool) (step : Z) : list Z :=
+  match fuel with
+  | O => []
+  | S f => if for_continues i hi incl step then i :: range_list f (wrap48 (i + step)) hi incl step else []
+  end.
+
+(* a for-loop over a range IS a for-each over the list of values of that range: same state,
+   same outcome, for every body, every environment and every fuel *)
+Lemma exec_for_is_foreach (fuel : nat) :
+  forall depth env st x i hi incl step b,
+    exec_for fuel depth env st x i hi incl step b
+    = exec_foreach fuel depth env st x (map VInt (range_list fuel i hi incl step)) b.
+Proof.
+  induction fuel as [|f IH]; intros; [reflexivity|].
+  cbn [exec_for exec_foreach range_list]. unfold for_continues.
+  destruct (if 0 <? step then if incl then i <=? hi else i <? hi else if incl then hi <=? i else hi <? i);
+    [|reflexivity].
+  cbn [map].
+  destruct (alloc_cell st (VInt i)) as [st1 l].
+  destruct (exec_stmt f depth false ((x, l) :: env) st1 b) as [st2 [[c env'] | k |]]; try reflexivity.
+  destruct c; try reflexivity; apply IH.
+Qed.
+
+(* the list of values is the arithmetic range: ascending, exclusive *)
+Lemma range_list_up_excl (n : nat) : forall fuel lo hi step,
+  0 < step -> (n < fuel)%nat ->
+  -140737488355328 <= lo -> lo + Z.of_nat n * step < 140737488355328 ->
+  lo + (Z.of_nat n - 1) * step < hi <= lo + Z.of_nat n * step ->
+  range_list fuel lo hi false step = map (fun k => lo + Z.of_nat k * step) (seq 0 n).
+Proof.
+  induction n as [|n IH]; intros fuel lo hi step Hs Hf Hlo Hhi Hb.
+  - destruct fuel as [|f]; [lia|]. cbn [range_list seq map]. unfold for_continues.
+    destruct (Z.ltb_spec 0 step); [|lia]. destruct (Z.ltb_spec lo hi); [lia|reflexivity].
+  - destruct fuel as [|f]; [lia|]. cbn [range_list]. unfold for_continues.
+    destruct (Z.ltb_spec 0 step); [|lia]. destruct (Z.ltb_spec lo hi); [|nia].
+    cbn [seq map]. f_equal; [lia|].
+    rewrite wrap48_id by nia.
+    rewrite (IH f (lo + step) hi step) by (try lia; nia).
+    rewrite <- seq_shift, map_map. apply map_ext. intro k. lia.
+Qed.
+
+(* descending, inclusive: visits lo, lo-s, ..., down to the last value >= hi *)
+Lemma range_list_down_incl (n : nat) : forall fuel lo hi s,
+  0 < s -> (n < fuel)%nat ->
+  lo < 140737488355328 -> -140737488355328 <= lo - Z.of_nat n * s ->
+  lo - Z.of_nat n * s < hi <= lo - (Z.of_nat n - 1) * s ->
+  range_list fuel lo hi true (- s) = map (fun k => lo - Z.of_nat k * s) (seq 0 n).
+Proof.
+  induction n as [|n IH]; intros fuel lo hi s Hs Hf Hlo Hhi Hb.
+  - destruct fuel as [|f]; [lia|]. cbn [range_list seq map]. unfold for_continues.
+    destruct (Z.ltb_spec 0 (- s)); [lia|]. destruct (Z.leb_spec hi lo); [lia|reflexivity].
+  - destruct fuel as [|f]; [lia|]. cbn [range_list]. unfold for_continues.
+    destruct (Z.ltb_spec 0 (- s)); [lia|]. destruct (Z.leb_spec hi lo); [|nia].
+    cbn [seq map]. f_equal; [lia|].
+    replace (lo + - s) with (lo - s) by lia.
+    rewrite wrap48_id by nia.
+    rewrite (IH f (lo - s) hi s) by (try lia; nia).
+    rewrite <- seq_shift, map_map. apply map_ext. intro k. lia.
+Qed.
+
+(* ------------------------------------------------------------------ short circuit *)
+Lemma and_short_circuit fuel depth env st a b st1 va :
+  eval_expr fuel depth env st a = (st1, ROk va) -> truthy va = false ->
+  eval_expr (S fuel) depth env st (EAnd a b) = (st1, ROk va).
+Proof. intros H T. cbn [eval_expr]. rewrite H, T. reflexivity. Qed.
+
+Lemma or_short_circuit fuel depth env st a b st1 va :
+  eval_expr fuel depth env st a = (st1, ROk va) -> truthy va = true ->
+  eval_expr (S fuel) depth env st (EOr a b) = (st1, ROk va).
+Proof. intros H T. cbn [eval_expr]. rewrite H, T. reflexivity. Qed.
+
+(* ------------------------------------------------------------------ parameters are copies *)
+Lemma nth_set_nth_other {A} (l : list A) (i j : nat) (v d : A) :
+  i <> j -> nth j (set_nth i v l) d = nth j l d.
+Proof.
+  revert i j; induction l as [|x r IH]; intros i j H; [destruct i; reflexivity|].
+  destruct i, j; cbn; try reflexivity; try contradiction. apply IH. lia.
+Qed.
+
+(* binding parameters only appends cells: every cell the caller could see keeps its value, and
+   the new locations are all beyond the old store *)
+Lemma bind_params_fresh (ps : list (string * bool)) :
+  forall vs env st env' st',
+    bind_params ps vs env st = (env', st') ->
+    (forall l, (l < List.length (cells st))%nat -> nth l (cells st') VNull = nth l (cells st) VNull)
+    /\ (List.length (cells st) <= List.length (cells st'))%nat
+    /\ globals st' = globals st /\ objs st' = objs st /\ out st' = out st.
+Proof.
+  induction ps as [|[p m] ps IH]; intros vs env st env' st' H.
+  - cbn in H. injection H as <- <-. repeat split; try reflexivity; lia.
+  - destruct vs as [|v vs]; [cbn in H; injection H as <- <-; repeat split; try reflexivity; lia|].
+    cbn [bind_params] in H. unfold alloc_cell in H.
+    specialize (IH vs _ _ _ _ H). cbn [cells globals objs out] in IH.
+    destruct IH as (Hc & Hl & Hg & Ho & Hout). rewrite app_length in Hl, Hc. cbn [List.length] in Hl, Hc.
+    repeat split; try assumption; try lia.
+    intros l Hlt. rewrite Hc by lia. apply app_nth1. exact Hlt.
+Qed.
+
+(* assigning to a cell beyond the caller's store leaves the caller's cells alone *)
+Lemma set_cell_other st l v j : l <> j -> nth j (cells (set_cell st l v)) VNull = nth j (cells st) VNull.
+Proof. intro H. unfold set_cell. cbn [cells]. apply nth_set_nth_other. exact H. Qed.
